@@ -63,10 +63,12 @@ type App struct {
 	Policy  flag.ErrorHandling
 	Version bool // declares app.Version("V version", "ver-1.2.3")
 	Builtin bool // declare with the built-in Bool/String/Strings types instead of recording custom types
+	// ArgsFirst: every command declares its arguments before its options
+	ArgsFirst bool
 	// PolicyLate: the policy is assigned to the app after all declarations instead of right after cli.App(): commands
 	// declared before keep what they copied at declaration time (the default, ExitOnError)
 	PolicyLate bool
-	Shared  bool // do not touch the package-level exit function and error stream (concurrent use)
+	Shared     bool // do not touch the package-level exit function and error stream (concurrent use)
 }
 
 // Single wraps one program into an application without subcommands
@@ -178,7 +180,7 @@ type recs struct {
 
 // buildApp declares the whole application on a fresh cli.App (environment variables backing options are set here
 // unless the app is Shared) and returns it together with the recorders
-func buildApp(a *App, o *Obs, setEnv *[]string) (*cli.Cli, map[int]*recs) {
+func buildApp(a *App, o *Obs, setEnv *[]string) (*cli.Cli, map[int]*recs, func(c *cli.Cmd, t *Cmd)) {
 	app := cli.App(a.Root.Aliases[0], "desc")
 	if !a.PolicyLate {
 		app.ErrorHandling = a.Policy
@@ -194,66 +196,77 @@ func buildApp(a *App, o *Obs, setEnv *[]string) (*cli.Cli, map[int]*recs) {
 		}
 		rs := &recs{o: map[*OptDecl]*Rec{}, a: map[*ArgDecl]*Rec{}, sbo: map[*OptDecl]*bool{}, sba: map[*ArgDecl]*bool{}, bo: map[*OptDecl]func() []string{}, ba: map[*ArgDecl]func() []string{}}
 		all[t.ID] = rs
-		for i, od := range t.Prog.Opts {
-			env := ""
-			if od.EnvSet {
-				env = envName(t.ID, i, od)
-				if !a.Shared {
-					os.Setenv(env, EnvValue(od))
-					*setEnv = append(*setEnv, env)
+		declOpts := func() {
+			for i, od := range t.Prog.Opts {
+				env := ""
+				if od.EnvSet {
+					env = envName(t.ID, i, od)
+					if !a.Shared {
+						os.Setenv(env, EnvValue(od))
+						*setEnv = append(*setEnv, env)
+					}
 				}
-			}
-			sb := new(bool)
-			rs.sbo[od] = sb
-			name := strings.Join(od.Names, " ")
-			if a.Builtin {
-				switch {
-				case od.Int && od.Multi:
-					p := c.Ints(cli.IntsOpt{Name: name, EnvVar: env, SetByUser: sb})
-					rs.bo[od] = func() []string { return intsStr(*p) }
-				case od.Int:
-					p := c.Int(cli.IntOpt{Name: name, EnvVar: env, SetByUser: sb})
-					rs.bo[od] = func() []string { return []string{fmt.Sprint(*p)} }
-				case od.Flag:
-					p := c.Bool(cli.BoolOpt{Name: name, EnvVar: env, SetByUser: sb})
-					rs.bo[od] = func() []string { return []string{fmt.Sprint(*p)} }
-				case od.Multi:
-					p := c.Strings(cli.StringsOpt{Name: name, EnvVar: env, SetByUser: sb})
-					rs.bo[od] = func() []string { return append([]string{}, *p...) }
-				default:
-					p := c.String(cli.StringOpt{Name: name, EnvVar: env, SetByUser: sb})
-					rs.bo[od] = func() []string { return []string{*p} }
+				sb := new(bool)
+				rs.sbo[od] = sb
+				name := strings.Join(od.Names, " ")
+				if a.Builtin {
+					switch {
+					case od.Int && od.Multi:
+						p := c.Ints(cli.IntsOpt{Name: name, EnvVar: env, SetByUser: sb})
+						rs.bo[od] = func() []string { return intsStr(*p) }
+					case od.Int:
+						p := c.Int(cli.IntOpt{Name: name, EnvVar: env, SetByUser: sb})
+						rs.bo[od] = func() []string { return []string{fmt.Sprint(*p)} }
+					case od.Flag:
+						p := c.Bool(cli.BoolOpt{Name: name, EnvVar: env, SetByUser: sb})
+						rs.bo[od] = func() []string { return []string{fmt.Sprint(*p)} }
+					case od.Multi:
+						p := c.Strings(cli.StringsOpt{Name: name, EnvVar: env, SetByUser: sb})
+						rs.bo[od] = func() []string { return append([]string{}, *p...) }
+					default:
+						p := c.String(cli.StringOpt{Name: name, EnvVar: env, SetByUser: sb})
+						rs.bo[od] = func() []string { return []string{*p} }
+					}
+					continue
 				}
-				continue
+				rc := &Rec{FlagLike: od.Flag}
+				rs.o[od] = rc
+				c.Var(cli.VarOpt{Name: name, Value: rc, EnvVar: env, SetByUser: sb})
 			}
-			rc := &Rec{FlagLike: od.Flag}
-			rs.o[od] = rc
-			c.Var(cli.VarOpt{Name: name, Value: rc, EnvVar: env, SetByUser: sb})
 		}
-		for i, ad := range t.Prog.Args {
-			sb := new(bool)
-			rs.sba[ad] = sb
-			aenv := ""
-			if ad.EnvSet {
-				aenv = fmt.Sprintf("VPE_%d_A%d", t.ID, i)
-				if !a.Shared {
-					os.Setenv(aenv, "argenv")
-					*setEnv = append(*setEnv, aenv)
+		declArgs := func() {
+			for i, ad := range t.Prog.Args {
+				sb := new(bool)
+				rs.sba[ad] = sb
+				aenv := ""
+				if ad.EnvSet {
+					aenv = fmt.Sprintf("VPE_%d_A%d", t.ID, i)
+					if !a.Shared {
+						os.Setenv(aenv, "argenv")
+						*setEnv = append(*setEnv, aenv)
+					}
 				}
+				if a.Builtin && ad.Int {
+					p := c.Ints(cli.IntsArg{Name: ad.Name, SetByUser: sb, EnvVar: aenv})
+					rs.ba[ad] = func() []string { return intsStr(*p) }
+					continue
+				}
+				if a.Builtin {
+					p := c.Strings(cli.StringsArg{Name: ad.Name, SetByUser: sb, EnvVar: aenv})
+					rs.ba[ad] = func() []string { return append([]string{}, *p...) }
+					continue
+				}
+				rc := &Rec{}
+				rs.a[ad] = rc
+				c.Var(cli.VarArg{Name: ad.Name, Value: rc, SetByUser: sb, EnvVar: aenv})
 			}
-			if a.Builtin && ad.Int {
-				p := c.Ints(cli.IntsArg{Name: ad.Name, SetByUser: sb, EnvVar: aenv})
-				rs.ba[ad] = func() []string { return intsStr(*p) }
-				continue
-			}
-			if a.Builtin {
-				p := c.Strings(cli.StringsArg{Name: ad.Name, SetByUser: sb, EnvVar: aenv})
-				rs.ba[ad] = func() []string { return append([]string{}, *p...) }
-				continue
-			}
-			rc := &Rec{}
-			rs.a[ad] = rc
-			c.Var(cli.VarArg{Name: ad.Name, Value: rc, SetByUser: sb, EnvVar: aenv})
+		}
+		if a.ArgsFirst {
+			declArgs()
+			declOpts()
+		} else {
+			declOpts()
+			declArgs()
 		}
 		// env values are Set at declaration time: only command-line values are to be recorded
 		for _, rc := range rs.o {
@@ -312,7 +325,7 @@ func buildApp(a *App, o *Obs, setEnv *[]string) (*cli.Cli, map[int]*recs) {
 	if a.PolicyLate {
 		app.ErrorHandling = a.Policy
 	}
-	return app, all
+	return app, all, build
 }
 
 // Run builds and runs the application on a fresh goroutine
@@ -352,7 +365,7 @@ func Run(a *App, argv []string) *Obs {
 				o.Pan = v
 			}
 		}()
-		app, all := buildApp(a, o, &setEnv)
+		app, all, _ := buildApp(a, o, &setEnv)
 		defer func() { o.Final = finalBind(all) }()
 		o.Err = app.Run(append([]string{a.Root.Aliases[0]}, argv...))
 		o.Events = append(o.Events, "RET")
@@ -567,7 +580,15 @@ type Built struct {
 	app      *cli.Cli
 	o        *Obs
 	all      map[int]*recs
+	build    func(c *cli.Cmd, t *Cmd)
 	BuildPan interface{}
+}
+
+// AddKid declares one more sub-command on the root of an application that may already have been run
+func (b *Built) AddKid(k *Cmd) {
+	k.Parent = b.a.Root
+	b.a.Root.Kids = append(b.a.Root.Kids, k)
+	b.app.Command(strings.Join(k.Aliases, " "), "d", func(sc *cli.Cmd) { b.build(sc, k) })
 }
 
 // Build declares the application now; Run runs it later. Used to interleave the construction and the execution of
@@ -582,7 +603,7 @@ func Build(a *App) *Built {
 				os.Unsetenv(e)
 			}
 		}()
-		b.app, b.all = buildApp(a, b.o, &setEnv)
+		b.app, b.all, b.build = buildApp(a, b.o, &setEnv)
 	}()
 	return b
 }
